@@ -374,8 +374,8 @@ type c04RealCase struct {
 	Inv    int   `json:"inv"` // 0 none, 1 expired, 3 valid
 	Iat    int   `json:"iat"` // issue time of the invocation: 0 absent, 1 now (constructor default), 2 twenty years ago, 3 in twenty years
 	Layout int   `json:"layout"`
-	Cmd    int   `json:"cmd"`     // index into c04Cmds
-	Self   bool  `json:"self"`    // empty proof list only: the invoker is the subject itself
+	Cmd    int   `json:"cmd"`  // index into c04Cmds
+	Self   bool  `json:"self"` // empty proof list only: the invoker is the subject itself
 }
 
 func (c *c04RealCase) Weight() int { return len(c.Wins) }
